@@ -345,3 +345,17 @@ func sortedKeys[V any](m map[string]V) []string {
 
 func jsonMarshal(v any) ([]byte, error)   { return json.Marshal(v) }
 func jsonUnmarshal(b []byte, v any) error { return json.Unmarshal(b, v) }
+
+// journalFile: when set (the driver re-runs a shard that crashed), every plan is written there
+// before it is executed, so that the plan that kills the process survives it.
+var journalFile string
+
+func journal(p *Plan) {
+	if journalFile == "" || p == nil {
+		return
+	}
+	b, err := json.Marshal(p)
+	if err == nil {
+		os.WriteFile(journalFile, b, 0o644)
+	}
+}
